@@ -101,6 +101,10 @@ func extractSevOvmfMetadata(guidBlockMap map[string][]byte, firmware []byte) ([]
 	if len(firmware) < offset {
 		return nil, fmt.Errorf("firmware is too small: found size %d < %d", len(firmware), offset)
 	}
+	if offset < abi.SizeofSevMetadata {
+		return nil, fmt.Errorf("SEV OVMF Metadata Offset is not large enough to contain the metadata header: %d < %d",
+			offset, abi.SizeofSevMetadata)
+	}
 	sevMetadata := abi.SevMetadataFromBytes(firmware[len(firmware)-offset:])
 
 	if sevMetadata.Signature != abi.SevSnpMetadataSignature {
@@ -111,7 +115,8 @@ func extractSevOvmfMetadata(guidBlockMap map[string][]byte, firmware []byte) ([]
 	// The length of each section is expected to be 12, The length of the
 	// offset is expected to be 16. Given the fact that we have both "length"
 	// and "sections" we can verify those fields against each other
-	if sevMetadata.Length != sevMetadata.Sections*abi.SizeofSevMetadataSection+abi.SizeofSevMetadata {
+	// Compare in 64 bits: the section count is untrusted and the 32-bit product can wrap.
+	if uint64(sevMetadata.Length) != uint64(sevMetadata.Sections)*abi.SizeofSevMetadataSection+abi.SizeofSevMetadata {
 		return nil, fmt.Errorf("mismatch between SEV memory offset length: %d and SEV metadata offset sections count: %d",
 			sevMetadata.Length, sevMetadata.Sections)
 	}
